@@ -1,6 +1,12 @@
 HOOK_COMMITS = ["c57c4f1"]
-IMPLEMENTED = {"C01", "C02", "C03", "C04", "C05", "C06", "C07", "C08", "C09", "C10", "C11", "C12", "C13", "C14", "C15", "C16", "C17", "C18", "C20"}
+IMPLEMENTED = {"C01", "C02", "C03", "C04", "C05", "C06", "C07", "C08", "C09", "C10", "C11", "C12", "C13", "C14", "C15", "C16", "C17", "C18", "C19", "C20"}
 TABLE = {
+ "C19": {
+  "technique": "multi-configuration differential testing of generated API programs (ten builds of one interpreter), with a per-build recomputation oracle for power-function-derived values and a plain-arithmetic oracle for ill-dimensioned programs",
+  "text": "Random well-dimensioned programs over quantities, states/commands, data, motion profiles, all stateful and stateless streams and all devices are executed by ten cfgrun binaries built from the same source against rrtk under {std, alloc+libm, alloc+micromath} x {checked, unchecked}, with and without debug assertions, plus the two feature-preference cases; traces must be token-identical except for power-function-derived values, which must be identical among builds sharing a power function, within 4 ulp between libm and std, and must satisfy the documented EWMA formula exactly with each build's own power value. Unit-scrambled twins run on the six unchecked builds and must neither panic nor be rejected and must equal both the well-dimensioned run and plain f32/i64 arithmetic.",
+  "note": "Ten builds cover every distinct cfg predicate in the sources, not every feature subset. micromath's power function is a coarse approximation by design and is treated as an uninterpreted per-build function. abs() is applied only to non-zero literals (abs(-0.0) keeps its sign without std: value-equal, but amplifiable by a later division).",
+  "engine": "rrtk-verif driver + 10 cfgrun binaries",
+ },
  "C16": {
   "technique": "exhaustive pattern enumeration with a poison hook and under Miri; grammar-generated safe probe programs with the compiler as oracle (must be rejected) and must-compile control twins",
   "text": "(a) Every arity 1..8 and every present/absent pattern of the n-ary sum/product, every own/partner combination of the terminal state read and Axle<0..8> construction are executed with inputs whose exact result identifies the contributing subset, once with the 0x7F poison hook compiled in and once as a plain program under Miri with the hook off. (b) 121 #![forbid(unsafe_code)] probe programs generated from a grammar (11 terminal accessors x 6 ways of ending or moving the device x 2 uses, plus attempts to build dangling Borrow/BorrowMut/Reference values or call unsafe constructors safely) are each compiled by rustc against the live rrtk: a probe that type-checks is a violation; each probe's control twin must compile. The 66 accessor x scenario combinations that do type-check are recorded as known findings.",
